@@ -33,7 +33,7 @@ def _jr(r, j=fpgen.obs_json):
 def run(ctx):
     ok, res = core.proof_step(ctx)
     st = State(ctx)
-    for sec in (sec_indices, sec_dense, sec_csr, sec_bitstring, sec_rdkit, sec_pickle, sec_files, sec_dtype_limit):
+    for sec in (sec_indices, sec_dense, sec_csr, sec_bitstring, sec_rdkit, sec_pickle, sec_files, sec_dtype_limit, sec_history):
         sec(st)
     for k in st.cases[:2] + st.cases[len(st.cases) // 3:len(st.cases) // 3 + 2] + st.cases[-2:]:
         ctx.sample({'case': k[0], 'input_and_implementation_result': st.payloads[k[0]], 'model_check': k[1][:400]})
@@ -45,6 +45,9 @@ def run(ctx):
                             'incl. None, names, picklable props; every representation, dtype, file extension and update_structure value; plus '
                             'malformed inputs (foreign characters, negative / fractional vector entries, explicit zeros, unsorted and duplicate CSR '
                             'columns, positions >= bits, too small bits=, RDKit lengths 2^31..2^32-1, drifted indices/counts before pickling). '
+                            'Histories: 2-5 conversions (to_vector dense/sparse x dtype None/bool/int64/uint16/float64, to_bitvector, to_bitstring, to_rdkit, fold, pickle, deepcopy, '
+                            'from_fingerprint, adding to a database of each kind, get_count/mean/std) on ONE object, half of them starting with a boolean view; after every step '
+                            'result == result on a fresh copy == model, object unchanged, and its vector round trip still exact. '
                             'A case is non-trivial when the fingerprint (or input) has at least one set position; distinct by full input.')
     ctx.coverage['input_distribution'] = st.dist
     ctx.assumptions += [
@@ -52,7 +55,8 @@ def run(ctx):
         'dense vectors and bit strings are exercised up to 2^16 positions (the theorems are for every length)',
         'float fingerprints are not converted to uint16 vectors (C cast semantics of NumPy, not modelled); NaN/inf vector entries not generated',
         'RDKit vectors given to from_rdkit have on-bits below 2^31 (SetBitsFromList cannot set larger ones)',
-        'property values are compared through a canonical rendering (type name + repr, containers recursively)']
+        'property values are compared through a canonical rendering (type name + repr, containers recursively)',
+        'a fingerprint is an immutable value in the model: independence of a conversion from the conversions made before on the same object is tied by the history section (implementation vs fresh copy vs model), not by a theorem']
     if not ok:
         core.report_broken_proof(ctx, res, found_input)
 
@@ -402,6 +406,132 @@ def sec_pickle(st):
                 cb = fpio.cache_obs(attempt(lambda: way(a))[1])
                 if cb != ca:
                     st.prop_fail('pickle', 'fold cache differs after %s' % wname, {'a': xobs_json(oa), 'cache_before': ca, 'cache_after': cb})
+
+
+# ------------------------------------------------------------------------------------------------ histories on one object
+def _vec_result(C, kind, a, vec, sparse):
+    """observation of a vector plus of what the own class reads back from it."""
+    o = csr_obs(vec) if sparse else dense_obs(vec)
+    back = attempt(lambda: xobs(C[kind].from_vector(vec, level=a.level, **({'name': a.name} if a.name else {}))))
+    return {'vec': [o[0], [[k, str(v)] for k, v in o[1]]], 'dtype': str(vec.dtype), 'shape': list(vec.shape),
+            'back': xobs_json(back[1]) if back[0] == 'ok' else back[1]}, o
+
+
+def _history_ops(rng, C, kind, bits):
+    """list of (name, action(fp) -> (json-able result, model_case or None)).  model_case = (coq bool expr template on the
+    Gallina literal of the fingerprint, model output expr)."""
+    ops = []
+    dts = [None, 'bool', 'int64', 'float64'] + (['uint16'] if kind != 'KFloat' else [])
+    np_dt = dict(NP_DTYPES, int64=np.int64)
+
+    def vec_op(sparse, dt):
+        def act(fp):
+            vec = fp.to_vector(sparse=sparse, dtype=np_dt[dt])
+            res, o = _vec_result(C, kind, fp, vec, sparse)
+            mc = None
+            if dt in DTYPES:
+                if sparse:
+                    mc = lambda l, o=o: ('result_eqb csr_eqb (to_csr %s %s) (Ok %s)' % (DTYPES[dt], l, csr_lit(o)), 'to_csr %s %s' % (DTYPES[dt], l))
+                else:
+                    mc = lambda l, o=o: ('result_eqb dense_c_eqb (result_map dense_compress (to_dense %s %s)) (Ok %s)' % (DTYPES[dt], l, dense_lit(o)),
+                                         'to_dense %s %s' % (DTYPES[dt], l))
+            return res, mc
+        return ('to_vector(sparse=%s, dtype=%s)' % (sparse, dt), act)
+
+    for dt in dts:
+        ops.append(vec_op(True, dt))
+        if bits <= DENSE_MAX:
+            ops.append(vec_op(False, dt))
+
+    def bitvector(sparse):
+        def act(fp):
+            vec = fp.to_bitvector(sparse=sparse)
+            res, o = _vec_result(C, 'KBit', fp, vec, sparse)
+            return res, None
+        return ('to_bitvector(sparse=%s)' % sparse, act)
+    ops.append(bitvector(True))
+    if bits <= DENSE_MAX:
+        ops.append(bitvector(False))
+    if bits <= 4096:
+        def bitstring(fp):
+            s = fp.to_bitstring()
+            return s, (lambda l, s=s: ('result_eqb String.eqb (to_bitstring %s) (Ok %s)' % (l, strlit(s)), 'to_bitstring %s' % l))
+        ops.append(('to_bitstring()', bitstring))
+
+    def rdkit(fp):
+        o = rdk_obs(fp.to_rdkit())
+        return [o[0], o[1], o[2]], (lambda l, o=o: ('result_eqb rdk_eqb (to_rdkit %s) (Ok %s)' % (l, rdk_lit(o)), 'to_rdkit %s' % l))
+    ops.append(('to_rdkit()', rdkit))
+    if bits >= 2 and (bits & (bits - 1)) == 0:
+        nb = max(1, bits // rng.choice([2, 4])) if bits <= 2 ** 20 else 1024
+        meth = rng.choice([0, 1])
+        ops.append(('fold(%d, method=%d)' % (nb, meth), lambda fp: (xobs_json(xobs(fp.fold(nb, method=meth))), None)))
+
+    def pkl(fp):
+        o = xobs(pickle.loads(pickle.dumps(fp)))
+        return xobs_json(o), (lambda l, o=o: ('fp_obs_eqb (xfp (pickle_roundtrip (mkfpx %s []))) %s' % (l, lit(o)), 'pickle_roundtrip (mkfpx %s [])' % l))
+    ops.append(('pickle', pkl))
+    ops.append(('copy.deepcopy', lambda fp: (xobs_json(xobs(copy.deepcopy(fp))), None)))
+    ops.append(('from_fingerprint', lambda fp: (xobs_json(xobs(fp.__class__.from_fingerprint(fp))), None)))
+    for dbk in fpgen.KINDS:
+        def db_add(fp, dbk=dbk):
+            from e3fp.fingerprint.db import FingerprintDatabase
+            db = FingerprintDatabase(fp_type=C[dbk], level=fp.level)
+            db.add_fingerprints([fp])
+            row = db.array[0]
+            return {'row': [[int(i), str(fpgen.fr(v))] for i, v in sorted(zip(row.indices, row.data))], 'dtype': str(db.array.dtype),
+                    'item': xobs_json(xobs(db[0]))}, None
+        ops.append(('add to %s database' % dbk, db_add))
+    probes = [0, bits - 1, rng.randrange(0, bits)]
+    ops.append(('get_count/mean/std', lambda fp: ([str(fpgen.fr(fp.get_count(i))) for i in probes + [int(j) for j in fp.indices[:2]]] +
+                                                  [repr(float(fp.mean())), repr(float(fp.std()))], None)))
+    return ops
+
+
+def sec_history(st):
+    """Conversions do not depend on the object's history: 2-5 conversions on ONE object; after every step the result must be
+    what a fresh copy of the original gives (and what the model gives), and the object must observe as before."""
+    rng, C = st.rng, fpgen.classes()
+    for i in range(st.ctx.n(120, 1500)):
+        kind = rng.choice(['KCount', 'KFloat', 'KCount', 'KFloat', 'KBit'])
+        spec = rand_spec(rng, kind=kind, maxbits=DENSE_MAX if rng.random() < 0.7 else 2 ** 32)
+        a = build(spec)
+        oa = xobs(a)
+        la = lit(oa)
+        ops = _history_ops(rng, C, kind, spec['bits'])
+        # a boolean view first in half of the histories (the view most unlike the counts)
+        boolish = [o for o in ops if 'bool' in o[0] or 'bitv' in o[0] or 'bitstring' in o[0] or 'KBit database' in o[0]]
+        n = rng.choice([2, 3, 4, 5])
+        seq = [rng.choice(boolish)] + [rng.choice(ops) for _ in range(n - 1)] if rng.random() < 0.5 else [rng.choice(ops) for _ in range(n)]
+        done = []
+        for name, act in seq:
+            done.append(name)
+            r_hist = attempt(lambda: act(a))
+            r_fresh = attempt(lambda: act(build(spec)))
+            pl = {'a': xobs_json(oa), 'sequence_on_one_object': list(done)}
+            h = r_hist[1][0] if r_hist[0] == 'ok' else r_hist[1]
+            f = r_fresh[1][0] if r_fresh[0] == 'ok' else r_fresh[1]
+            if r_hist[0] != r_fresh[0] or h != f:
+                st.found_input = True
+                st.ctx.fail('history dependence: %s after %s gives a different result than on a fresh copy of the same fingerprint' % (name, done[:-1] or 'nothing'),
+                            dict(pl, repr='history', result_on_used_object=h, result_on_fresh_object=f), finding_key='history:%s' % name.split('(')[0], kind='property-on-implementation')
+            if r_hist[0] == 'ok' and r_hist[1][1] is not None:
+                expr, mout = r_hist[1][1](la)
+                st.add('history', name.split('(')[0], expr, dict(pl, impl=h if not isinstance(h, str) else h[:200]), mout, bool(oa['idx']), dkey=(str(oa), tuple(done)))
+            else:
+                st.ctx.count(('history', str(oa), tuple(done)), bool(oa['idx']))
+            if xobs(a) != oa:
+                st.found_input = True
+                st.ctx.fail('history: %s changed the fingerprint it was called on' % name, dict(pl, repr='history', after=xobs_json(xobs(a))),
+                            finding_key='history:mutated', kind='property-on-implementation')
+                break
+            # the own round trip on the used object (what the property states), for the lossless forms
+            if rng.random() < 0.5 and all(v <= 65535 for _, v in oa['cnt']):
+                sparse = rng.random() < 0.6 or spec['bits'] > DENSE_MAX
+                rb = _r(attempt(lambda: C[kind].from_vector(a.to_vector(sparse=sparse), level=a.level, **({'name': a.name} if a.name else {}))), xobs)
+                done.append('round trip to_vector(sparse=%s)/from_vector' % sparse)
+                st.check_rt('history', oa, rb, {'sequence_on_one_object': list(done)})
+        st.dist['history/length-%d' % n] = st.dist.get('history/length-%d' % n, 0) + 1
 
 
 def _setstate(a):
